@@ -94,6 +94,41 @@ func CheckRules(w *World, pi *PkgInfo) []*Obligation {
 			return true
 		})
 	}
+	// every REFERENCE to a wall-clock function counts (a call, a method value, `var now = time.Now`), also at package level
+	callFuns := map[ast.Expr]bool{}
+	for _, f := range pi.P.Syntax {
+		ast.Inspect(f, func(n ast.Node) bool {
+			if ce, ok := n.(*ast.CallExpr); ok {
+				callFuns[unparen(ce.Fun)] = true
+			}
+			return true
+		})
+	}
+	for _, f := range pi.P.Syntax {
+		var encl string
+		for _, decl := range f.Decls {
+			encl = "package level"
+			if fd, ok := decl.(*ast.FuncDecl); ok {
+				encl = fd.Name.Name
+				for k2, fi := range pi.Funcs {
+					if fi.Decl == fd {
+						encl = k2
+					}
+				}
+			}
+			enclName := encl
+			ast.Inspect(decl, func(n ast.Node) bool {
+				se, ok := n.(*ast.SelectorExpr)
+				if !ok || callFuns[se] {
+					return true
+				}
+				if fo, ok := info.Uses[se.Sel].(*types.Func); ok && wallClockFuncs[fo.FullName()] {
+					calls[fo.FullName()] = append(calls[fo.FullName()], hit{enclName, x.pos(se.Pos())})
+				}
+				return true
+			})
+		}
+	}
 	mk := func(r *WriterRule, name string, ok bool, pos, clause string) {
 		g := True
 		if !ok {
